@@ -420,6 +420,9 @@ def check_iddata(facts):
             src = None
             if dop["k"] in ("copy", "move"):
                 d = body.single_def(dop["pl"]["l"])
+                for _ in range(4):   # through named copies (`let saved = *loop_data; .. data: saved`)
+                    if d and d[2] == "assign" and d[3]["rv"]["k"] == "use" and d[3]["rv"]["op"]["k"] in ("copy", "move") and not d[3]["rv"]["op"]["pl"]["p"]:
+                        d = body.single_def(d[3]["rv"]["op"]["pl"]["l"])
                 if d and d[2] == "assign" and d[3]["rv"]["k"] == "use" and d[3]["rv"]["op"]["k"] == "copy" and d[3]["rv"]["op"]["pl"]["p"][:1] == ["*"]:
                     src = body.root_of(d[3]["rv"]["op"]["pl"]["l"])[0]
                 elif d and d[2] == "assign" and d[3]["rv"]["k"] == "agg":
